@@ -64,7 +64,40 @@ def ifeat(i):
     return f or "-"
 
 
+def at_scale_case(ctx, g, rng):
+    """a triples file far above any plausible batch size; long identifiers and prefixes"""
+    from curies.triples import Triple, read_triples, write_triples
+
+    api, S = ctx.api, probe.S
+    n = rng.choice([1500, 6000]) if ctx.tier == "thorough" else 1100
+    long_id = "x" * rng.choice([300, 5000]) + ":y"
+    refs = [api.Reference(prefix=rng.choice(PFX), identifier=rng.choice(IDS + [long_id, str(i)])) for i in range(60)]
+    triples = [Triple(subject=rng.choice(refs), predicate=rng.choice(refs), object=rng.choice(refs)) for _ in range(n)]
+    want = [(t.subject.pair, t.predicate.pair, t.object.pair) for t in triples]
+    for name in ("big.tsv", "big.tsv.gz"):
+        evaluated("ref:triples-file")
+        path = ctx.tmp / name
+        wo = call(write_triples, triples if rng.random() < 0.5 else iter(triples), path)
+        back = call(read_triples, path) if wo[0] == "ret" else wo
+        got = [(t.subject.pair, t.predicate.pair, t.object.pair) for t in back[1]] if back[0] == "ret" else back
+        if got != want:
+            bad = next((i for i, (a, b) in enumerate(zip(got, want)) if a != b), min(len(got), len(want))) if isinstance(got, list) else None
+            violation(["C15"], "ref:triples-file", "triples-file-round-trip-differs", file=name, triples_written=len(want),
+                      triples_read=len(got) if isinstance(got, list) else got, first_difference_at=bad,
+                      written=want[bad] if bad is not None and bad < len(want) else None,
+                      read_back=got[bad] if isinstance(got, list) and bad is not None and bad < len(got) else None)
+    # the parse / print laws on long values
+    for r in rng.sample(refs, k=10):
+        evaluated("ref:print-parse")
+        if r.curie != f"{r.prefix}:{r.identifier}" or call(api.Reference.from_curie, r.curie) != ("ret", r) or hash(r) != hash(api.NamableReference(prefix=r.prefix, identifier=r.identifier, name="n")):
+            violation(["C15"], "ref:print-parse", "does-not-print-as-prefix-colon-identifier", prefix=r.prefix, identifier=r.identifier[:50], curie=r.curie[:80])
+    S.counters[f"wl:at-scale:n{n}"] += 1
+    probe.note_key(f"at-scale:n{n}", True)
+
+
 def run_case(ctx, g, rng):
+    if g % 125 == 125 - 1:
+        return at_scale_case(ctx, g, rng)
     import pydantic
     from curies.triples import Triple, read_triples, write_triples
 
